@@ -8,6 +8,7 @@ import SoxrModel.Vr.Model
 * generic induction principles for the `while` loop and for call sequences.
 -/
 namespace Soxr.Vr
+set_option linter.unusedSimpArgs false
 variable {ρ : Type}
 
 /-! ### Interpolator loops -/
@@ -283,7 +284,7 @@ theorem chunk_spec (cfg : Cfg ρ) (occ0 : Int) (olen0 : Nat) (l : LoopSt ρ) :
     (chunkMx l (stageDif a.1) (decide (a.1.cur.sn + stageDif a.1 < a.1.ns)))
   generalize hK : kernels b a.2 (chunkMn l (stageDif a.1))
     (chunkMx l (stageDif a.1) (decide (a.1.cur.sn + stageDif a.1 < a.1.ns))) = K at hk
-  have hr : r = chunkFinish l (doesSwitch a.1) K := by
+  have hr : r = chunkFinish l (doesSwitch a.1) (doesSwitch a.1 && negLeftShift a.1 (stageDif a.1)) K := by
     show (chunk cfg occ0 olen0 l).1 = _
     unfold chunk
     dsimp only
@@ -327,5 +328,454 @@ theorem loop_induct (cfg : Cfg ρ) (occ0 : Int) (olen0 : Nat) (P : LoopSt ρ →
       · exact ih _ (hstep l h ‹_›)
       · exact hstep l h ‹_›
     · exact h
+
+/-! ### `vr_process` and call sequences as transformers of the clock / slew fields -/
+
+/-- the fields the slew theorems are about -/
+structure V (ρ : Type) where
+  slew : Int
+  newR : Option ρ
+  defR : Option ρ
+  step : Int
+  ss : Int
+  mult : Nat
+  sn : Int
+  isD : Bool
+  ns : Nat
+
+def St.v (s : St ρ) : V ρ :=
+  { slew := s.slew, newR := s.newR, defR := s.defR, step := s.cur.step, ss := s.cur.ss, mult := s.cur.mult,
+    sn := s.cur.sn, isD := s.cur.isD, ns := s.ns }
+
+def Ctl.v (c : Ctl ρ) : V ρ :=
+  { slew := c.slew, newR := c.newR, defR := c.defR, step := c.cur.step, ss := c.cur.ss, mult := c.cur.mult,
+    sn := c.cur.sn, isD := c.cur.isD, ns := c.ns }
+
+theorem v_of_ctl (s : St ρ) : s.v = s.ctl.v := rfl
+
+theorem setLens_v (s : St ρ) (occ0 : Int) : (setLens s occ0).v = s.v := by
+  unfold setLens; dsimp only; split <;> rfl
+
+theorem preLoop_v (cfg : Cfg ρ) (s : St ρ) (olen0 : Nat) :
+    (preLoop cfg s olen0).1.st.v = (applyDefault cfg s).v ∧ (preLoop cfg s olen0).1.od0 = 0 ∧
+    (preLoop cfg s olen0).1.nsw = 0 ∧ (preLoop cfg s olen0).1.nmis = 0 := by
+  unfold preLoop
+  dsimp only
+  refine ⟨?_, rfl, rfl, rfl⟩
+  rw [setLens_v]
+  generalize hX : inputStages _ _ _ = X
+  have hc' : X.v = (applyDefault cfg s).v := by
+    rw [← hX, v_of_ctl, inputStages_ctl]; rfl
+  have h : (if X.fl > 0 then { X with fl := -1 } else X).v = X.v := by split <;> rfl
+  rw [h, hc']
+
+theorem post_v (s : St ρ) (mn mx : Int) : (post s mn mx).v = s.v := by
+  unfold post
+  dsimp only
+  rw [v_of_ctl, readStages_ctl]
+  rfl
+
+theorem input_v (s : St ρ) (n : Nat) : (input s n).v = s.v := rfl
+
+theorem flush_v (s : St ρ) : (flush s).v = s.v := by
+  unfold flush; split <;> rfl
+
+theorem output_v (s : St ρ) (n : Nat) : (output s n).1.v = s.v := rfl
+
+/-- induction over `vr_process`: a property of (clock / slew fields, frames so far, ghost counters) that holds after
+    line 430 and is preserved by every chunk holds at the end. -/
+theorem process_induct (cfg : Cfg ρ) (s : St ρ) (olen0 : Nat) (P : V ρ → Nat → Nat → Nat → Prop)
+    (h0 : P (applyDefault cfg s).v 0 0 0)
+    (hstep : ∀ (occ0 : Int) (l : LoopSt ρ), P l.st.v l.od0 l.nsw l.nmis → l.od0 < olen0 →
+      P (chunk cfg occ0 olen0 l).1.st.v (chunk cfg occ0 olen0 l).1.od0 (chunk cfg occ0 olen0 l).1.nsw
+        (chunk cfg occ0 olen0 l).1.nmis) :
+    P (process cfg s olen0).st.v (process cfg s olen0).od (process cfg s olen0).nsw (process cfg s olen0).nmis := by
+  unfold process
+  dsimp only
+  obtain ⟨p1, p2, p3, p4⟩ := preLoop_v cfg s olen0
+  have hl := loop_induct cfg (preLoop cfg s olen0).2 olen0 (fun l => P l.st.v l.od0 l.nsw l.nmis)
+    (fun l hl hlt => hstep _ l hl hlt) (olen0 + 1) (preLoop cfg s olen0).1 (by rw [p1, p2, p3, p4]; exact h0)
+  have e : ∀ (t : St ρ) (k : Int), ({ t with oocc := k } : St ρ).v = t.v := fun _ _ => rfl
+  rw [e, post_v]
+  exact hl
+
+/-! ### Shifts -/
+
+theorem two_pow_pos (n : Nat) : (0 : Int) < 2 ^ n := Int.pow_pos (by decide)
+
+theorem lshift_zero (k : Int) : lshift 0 k = 0 := by
+  unfold lshift; split <;> simp
+
+theorem lshift_nonneg (x k : Int) (h : 0 ≤ x) : 0 ≤ lshift x k := by
+  unfold lshift
+  split
+  · exact Int.mul_nonneg h (Int.le_of_lt (two_pow_pos _))
+  · exact (Int.ediv_nonneg_iff_of_pos (two_pow_pos _)).mpr h
+
+theorem lshift_nonpos (x k : Int) (h : x ≤ 0) : lshift x k ≤ 0 := by
+  unfold lshift
+  split
+  · exact Int.mul_nonpos_of_nonpos_of_nonneg h (Int.le_of_lt (two_pow_pos _))
+  · exact Int.ediv_nonpos_of_nonpos_of_neg h (two_pow_pos _)
+
+/-! ### Requests -/
+
+theorem applyDefault_none (cfg : Cfg ρ) (s : St ρ) (h : s.defR = none) : applyDefault cfg s = s := by
+  unfold applyDefault; rw [h]
+
+/-- `vr_set_io_ratio(r, 0)`, field by field. -/
+theorem setIoRatio_zero_spec (cfg : Cfg ρ) (s : St ρ) (r : ρ) :
+    (setIoRatio cfg s r 0).defR = none ∧
+    (setIoRatio cfg s r 0).cur.step = cfg.num.stepOf r (setIoRatio cfg s r 0).cur.mult ∧
+    (setIoRatio cfg s r 0).ns = s.ns ∧
+    (s.defR = none → (setIoRatio cfg s r 0).cur.mult = s.cur.mult ∧ (setIoRatio cfg s r 0).cur.sn = s.cur.sn ∧
+        (setIoRatio cfg s r 0).cur.isD = s.cur.isD ∧ (setIoRatio cfg s r 0).cur.clk = s.cur.clk) ∧
+    (cfg.fixF13 = false → (setIoRatio cfg s r 0).slew = s.slew ∧ (setIoRatio cfg s r 0).newR = s.newR ∧
+        (setIoRatio cfg s r 0).cur.ss = s.cur.ss) ∧
+    (cfg.fixF13 = true → (setIoRatio cfg s r 0).slew = 0 ∧ (setIoRatio cfg s r 0).newR = none ∧
+        (setIoRatio cfg s r 0).cur.ss = 0 ∧ (setIoRatio cfg s r 0).fo.ss = 0) := by
+  unfold setIoRatio
+  cases hd : s.defR <;> cases hf : cfg.fixF13 <;> by_cases hfade : s.fade = 0 <;>
+    simp [hd, hf, hfade, setStep, enter, enterStream]
+
+/-- `vr_set_io_ratio(r, L)` with `L > 0`, field by field. -/
+theorem setIoRatio_slew_spec (cfg : Cfg ρ) (s : St ρ) (r : ρ) (L : Nat) (hL : L ≠ 0) :
+    (setIoRatio cfg s r L).defR = s.defR ∧ (setIoRatio cfg s r L).cur.step = s.cur.step ∧
+    (setIoRatio cfg s r L).cur.mult = s.cur.mult ∧ (setIoRatio cfg s r L).ns = s.ns ∧
+    (setIoRatio cfg s r L).cur.sn = s.cur.sn ∧ (setIoRatio cfg s r L).cur.isD = s.cur.isD ∧
+    (setIoRatio cfg s r L).cur.clk = s.cur.clk ∧
+    (setIoRatio cfg s r L).cur.ss = slewInc (cfg.num.stepOf r s.cur.mult) s.cur.step L ∧
+    (slewInc (cfg.num.stepOf r s.cur.mult) s.cur.step L = 0 →
+        (setIoRatio cfg s r L).slew = 0 ∧ (setIoRatio cfg s r L).newR = none) ∧
+    (slewInc (cfg.num.stepOf r s.cur.mult) s.cur.step L ≠ 0 →
+        (setIoRatio cfg s r L).slew = L ∧ (setIoRatio cfg s r L).newR = some r) := by
+  unfold setIoRatio
+  by_cases h0 : slewInc (cfg.num.stepOf r s.cur.mult) s.cur.step L = 0 <;> by_cases hfade : s.fade = 0 <;>
+    simp [hL, h0, hfade, setSS]
+
+/-! ### The slew as an invariant -/
+
+/-- a slew request as the engine stored it: `step` when it was made, the increment, the length, the target -/
+structure Req (ρ : Type) where
+  step0 : Int
+  ss0 : Int
+  L : Nat
+  r : ρ
+  mult : Nat
+
+/-- Where the engine is `j` output frames after the request `g` (as long as no stage switch intervened):
+    * `j < L`: still slewing — `step = step₀ + j·step_step`, `slew_len = L − j`;
+    * `j = L`, before the next chunk starts: the last increment has been applied, the snap is pending;
+    * from the first chunk after that on: `step` is exactly the target, `step_step = 0`. -/
+def SlewingV (cfg : Cfg ρ) (g : Req ρ) (v : V ρ) (j : Nat) : Prop :=
+  v.defR = none ∧ v.mult = g.mult ∧
+  ((j < g.L ∧ v.slew = (g.L : Int) - j ∧ v.newR = some g.r ∧ v.step = g.step0 + (j : Int) * g.ss0 ∧ v.ss = g.ss0) ∨
+   (j = g.L ∧ v.slew = 0 ∧ v.newR = some g.r ∧ v.step = g.step0 + (g.L : Int) * g.ss0 ∧ v.ss = g.ss0) ∨
+   (g.L ≤ j ∧ v.slew = 0 ∧ v.newR = none ∧ v.step = cfg.num.stepOf g.r g.mult ∧ v.ss = 0))
+
+theorem chunkBase_noswitch (cfg : Cfg ρ) (occ0 : Int) (olen0 : Nat) (l : LoopSt ρ)
+    (h : doesSwitch (chunkStart cfg l.st (olen0 - l.od0)).1 = false) :
+    chunkBase cfg occ0 olen0 l = (chunkStart cfg l.st (olen0 - l.od0)).1 := by
+  unfold chunkBase; simp [h]
+
+/-- one chunk without a stage switch and with both cross-faded streams in step keeps the slew invariant and moves
+    it on by the frames delivered. -/
+theorem SlewingV_chunk (cfg : Cfg ρ) (g : Req ρ) (occ0 : Int) (olen0 : Nat) (l : LoopSt ρ) (j : Nat)
+    (h : SlewingV cfg g l.st.v j)
+    (hs : (chunk cfg occ0 olen0 l).1.nsw = l.nsw) (hm : (chunk cfg occ0 olen0 l).1.nmis = l.nmis) :
+    SlewingV cfg g (chunk cfg occ0 olen0 l).1.st.v (j + ((chunk cfg occ0 olen0 l).1.od0 - l.od0)) := by
+  have hc := chunk_spec cfg occ0 olen0 l
+  dsimp only at hc
+  obtain ⟨c1, _, c3, c4, c5, c6, c7, _, _, _, ⟨kc, c11, c12⟩, c13, c14⟩ := hc
+  have hns : doesSwitch (chunkStart cfg l.st (olen0 - l.od0)).1 = false := by
+    cases hd : doesSwitch (chunkStart cfg l.st (olen0 - l.od0)).1 with
+    | false => rfl
+    | true => rw [hd] at c1; simp at c1; omega
+  rw [chunkBase_noswitch cfg occ0 olen0 l hns] at c4 c5 c6 c7 c11 c13
+  have hkc := c12 hm
+  generalize (chunk cfg occ0 olen0 l).1 = R at *
+  generalize hod : R.od0 - l.od0 = od at *
+  subst hkc
+  obtain ⟨hd, hmul, hcase⟩ := h
+  simp only [St.v] at hd hmul hcase
+  unfold SlewingV
+  simp only [St.v]
+  rcases hcase with ⟨hj, h1, h2, h3, h4⟩ | ⟨hj, h1, h2, h3, h4⟩ | ⟨hj, h1, h2, h3, h4⟩
+  · -- slewing
+    have hne : l.st.slew ≠ 0 := by omega
+    rw [chunkStart_slewing cfg l.st _ hne] at c4 c5 c6 c7 c11 c13 c14
+    dsimp only at c4 c5 c6 c7 c11 c13 c14
+    have hle : (kc : Int) ≤ l.st.slew := by omega
+    refine ⟨by rw [c5, hd], by rw [c7, hmul], ?_⟩
+    rw [if_pos hne] at c13
+    by_cases hlt : j + kc < g.L
+    · left
+      refine ⟨hlt, by omega, by rw [c4, h2], ?_, by rw [c6, h4]⟩
+      rw [c11, h3, h4]; push_cast; rw [Int.add_mul]; omega
+    · right; left
+      have : j + kc = g.L := by omega
+      refine ⟨this, by omega, by rw [c4, h2], ?_, by rw [c6, h4]⟩
+      rw [c11, h3, h4, ← this]; push_cast; rw [Int.add_mul]; omega
+  · -- snap pending
+    rw [chunkStart_pending cfg l.st _ g.r h1 h2] at c4 c5 c6 c7 c11 c13
+    dsimp only [setStep] at c4 c5 c6 c7 c11 c13
+    refine ⟨by rw [c5, hd], by rw [c7, hmul], ?_⟩
+    right; right
+    refine ⟨by omega, ?_, c4, ?_, c6⟩
+    · rw [c13, h1]; simp
+    · rw [c11, hmul]; simp
+  · -- snapped
+    rw [chunkStart_idle cfg l.st _ h1 h2] at c4 c5 c6 c7 c11 c13
+    refine ⟨by rw [c5, hd], by rw [c7, hmul], ?_⟩
+    right; right
+    refine ⟨by omega, ?_, by rw [c4, h2], ?_, by rw [c6, h4]⟩
+    · rw [c13, h1]; simp
+    · rw [c11, h3, h4]; simp
+
+theorem SlewingV_process (cfg : Cfg ρ) (g : Req ρ) (s : St ρ) (olen0 j : Nat) (h : SlewingV cfg g s.v j)
+    (hs : (process cfg s olen0).nsw = 0) (hm : (process cfg s olen0).nmis = 0) :
+    SlewingV cfg g (process cfg s olen0).st.v (j + (process cfg s olen0).od) := by
+  have := process_induct cfg s olen0
+    (fun v od nsw nmis => nsw = 0 → nmis = 0 → SlewingV cfg g v (j + od))
+    (by
+      intro _ _
+      rw [applyDefault_none cfg s h.1]
+      exact h)
+    (by
+      intro occ0 l hl hlt hs' hm'
+      have hc := chunk_spec cfg occ0 olen0 l
+      dsimp only at hc
+      obtain ⟨c1, c2, c3, _⟩ := hc
+      have hl0 : l.nsw = 0 := by omega
+      have hm0 : l.nmis = 0 := by omega
+      have := SlewingV_chunk cfg g occ0 olen0 l (j + l.od0) (hl hl0 hm0) (by omega) (by omega)
+      have e : j + l.od0 + ((chunk cfg occ0 olen0 l).1.od0 - l.od0) = j + (chunk cfg occ0 olen0 l).1.od0 := by omega
+      rw [e] at this
+      exact this)
+  exact this hs hm
+
+/-- the ghost counters of a call sequence only grow -/
+theorem stepOp_counters (cfg : Cfg ρ) (r : Run ρ) (o : Op ρ) :
+    r.nsw ≤ (stepOp cfg r o).nsw ∧ r.nmis ≤ (stepOp cfg r o).nmis ∧ r.out ≤ (stepOp cfg r o).out := by
+  cases o <;> simp [stepOp]
+
+theorem run_counters (cfg : Cfg ρ) (ops : List (Op ρ)) (r : Run ρ) :
+    r.nsw ≤ (run cfg r ops).nsw ∧ r.nmis ≤ (run cfg r ops).nmis ∧ r.out ≤ (run cfg r ops).out := by
+  induction ops generalizing r with
+  | nil => simp [run]
+  | cons o ops ih =>
+    have h1 := stepOp_counters cfg r o
+    have h2 := ih (stepOp cfg r o)
+    simp only [run, List.foldl_cons] at h2 ⊢
+    omega
+
+theorem SlewingV_stepOp (cfg : Cfg ρ) (g : Req ρ) (r : Run ρ) (o : Op ρ) (j : Nat) (ho : o.isRatio = false)
+    (h : SlewingV cfg g r.st.v (j + r.out))
+    (hs : (stepOp cfg r o).nsw = r.nsw) (hm : (stepOp cfg r o).nmis = r.nmis) :
+    SlewingV cfg g (stepOp cfg r o).st.v (j + (stepOp cfg r o).out) := by
+  cases o with
+  | ratio x sl => simp [Op.isRatio] at ho
+  | proc ilen olen =>
+    simp only [stepOp] at hs hm ⊢
+    rw [output_v]
+    have := SlewingV_process cfg g (input r.st ilen) olen (j + r.out) (by rw [input_v]; exact h) (by omega) (by omega)
+    rw [Nat.add_assoc] at this
+    exact this
+  | flush olen =>
+    simp only [stepOp] at hs hm ⊢
+    rw [output_v]
+    have := SlewingV_process cfg g (flush r.st) olen (j + r.out) (by rw [flush_v]; exact h) (by omega) (by omega)
+    rw [Nat.add_assoc] at this
+    exact this
+
+theorem SlewingV_run (cfg : Cfg ρ) (g : Req ρ) (ops : List (Op ρ)) (r : Run ρ) (j : Nat)
+    (ho : ∀ o ∈ ops, o.isRatio = false) (h : SlewingV cfg g r.st.v (j + r.out))
+    (hs : (run cfg r ops).nsw = r.nsw) (hm : (run cfg r ops).nmis = r.nmis) :
+    SlewingV cfg g (run cfg r ops).st.v (j + (run cfg r ops).out) := by
+  induction ops generalizing r with
+  | nil => exact h
+  | cons o ops ih =>
+    have h1 := stepOp_counters cfg r o
+    have h2 := run_counters cfg ops (stepOp cfg r o)
+    simp only [run, List.foldl_cons] at hs hm h2 ⊢
+    have := ih (stepOp cfg r o) (fun o' ho' => ho o' (List.mem_cons_of_mem _ ho'))
+      (SlewingV_stepOp cfg g r o j (ho o (List.mem_cons_self ..)) h (by omega) (by omega))
+    simp only [run] at this
+    exact this (by omega) (by omega)
+
+/-! ### No slew in progress: nothing moves -/
+
+/-- no ratio request is outstanding: the initial ratio has been set, no slew is running, no snap is pending -/
+def QuiescentV (v : V ρ) : Prop := v.defR = none ∧ v.slew = 0 ∧ v.newR = none ∧ v.ss = 0
+
+theorem QuiescentV_chunk (cfg : Cfg ρ) (occ0 : Int) (olen0 : Nat) (l : LoopSt ρ) (h : QuiescentV l.st.v) :
+    QuiescentV (chunk cfg occ0 olen0 l).1.st.v ∧
+    ((chunk cfg occ0 olen0 l).1.nsw = l.nsw →
+      (chunk cfg occ0 olen0 l).1.st.v.step = l.st.v.step ∧ (chunk cfg occ0 olen0 l).1.st.v.mult = l.st.v.mult ∧
+      (chunk cfg occ0 olen0 l).1.st.v.sn = l.st.v.sn) := by
+  have hc := chunk_spec cfg occ0 olen0 l
+  dsimp only at hc
+  obtain ⟨c1, _, c3, c4, c5, c6, c7, _, c9, _, ⟨kc, c11, _⟩, c13, _⟩ := hc
+  obtain ⟨hd, h1, h2, h4⟩ := h
+  simp only [St.v] at hd h1 h2 h4 ⊢
+  have ha := chunkStart_idle cfg l.st (olen0 - l.od0) h1 h2
+  have hb : (chunkBase cfg occ0 olen0 l).slew = 0 ∧ (chunkBase cfg occ0 olen0 l).newR = none ∧
+      (chunkBase cfg occ0 olen0 l).defR = none ∧ (chunkBase cfg occ0 olen0 l).cur.ss = 0 := by
+    unfold chunkBase
+    dsimp only
+    rw [ha]
+    dsimp only
+    split
+    · obtain ⟨s1, s2, s3, _, _, _, _, _, _, _, _, _, _, s14⟩ := switchStage_spec l.st (stageDif l.st) occ0
+      exact ⟨by rw [s1, h1], by rw [s2, h2], by rw [s3, hd], by rw [s14, h4, lshift_zero]⟩
+    · exact ⟨h1, h2, hd, h4⟩
+  obtain ⟨b1, b2, b3, b4⟩ := hb
+  refine ⟨⟨by rw [c5, b3], by rw [c13, b1]; simp, by rw [c4, b2], by rw [c6, b4]⟩, fun hs => ?_⟩
+  have hns : doesSwitch (chunkStart cfg l.st (olen0 - l.od0)).1 = false := by
+    cases hd' : doesSwitch (chunkStart cfg l.st (olen0 - l.od0)).1 with
+    | false => rfl
+    | true => rw [hd'] at c1; simp at c1; omega
+  rw [chunkBase_noswitch cfg occ0 olen0 l hns, ha] at c7 c9 c11
+  dsimp only at c7 c9 c11
+  rw [h4] at c11
+  exact ⟨by rw [c11]; simp, c7, c9⟩
+
+theorem QuiescentV_process (cfg : Cfg ρ) (s : St ρ) (olen0 : Nat) (h : QuiescentV s.v) :
+    QuiescentV (process cfg s olen0).st.v ∧
+    ((process cfg s olen0).nsw = 0 →
+      (process cfg s olen0).st.v.step = s.v.step ∧ (process cfg s olen0).st.v.mult = s.v.mult ∧
+      (process cfg s olen0).st.v.sn = s.v.sn) := by
+  exact process_induct cfg s olen0
+    (fun v _ nsw _ => QuiescentV v ∧ (nsw = 0 → v.step = s.v.step ∧ v.mult = s.v.mult ∧ v.sn = s.v.sn))
+    (by rw [applyDefault_none cfg s h.1]; exact ⟨h, fun _ => ⟨rfl, rfl, rfl⟩⟩)
+    (by
+      intro occ0 l hl _
+      have hc := chunk_spec cfg occ0 olen0 l
+      dsimp only at hc
+      obtain ⟨c1, _⟩ := hc
+      obtain ⟨q, hstep⟩ := QuiescentV_chunk cfg occ0 olen0 l hl.1
+      refine ⟨q, fun h0 => ?_⟩
+      obtain ⟨e1, e2, e3⟩ := hstep (by omega)
+      obtain ⟨f1, f2, f3⟩ := hl.2 (by omega)
+      exact ⟨e1.trans f1, e2.trans f2, e3.trans f3⟩)
+
+theorem QuiescentV_stepOp (cfg : Cfg ρ) (r : Run ρ) (o : Op ρ) (ho : o.isRatio = false) (h : QuiescentV r.st.v) :
+    QuiescentV (stepOp cfg r o).st.v ∧
+    ((stepOp cfg r o).nsw = r.nsw →
+      (stepOp cfg r o).st.v.step = r.st.v.step ∧ (stepOp cfg r o).st.v.mult = r.st.v.mult ∧
+      (stepOp cfg r o).st.v.sn = r.st.v.sn) := by
+  cases o with
+  | ratio x sl => simp [Op.isRatio] at ho
+  | proc ilen olen =>
+    simp only [stepOp]
+    rw [output_v]
+    have := QuiescentV_process cfg (input r.st ilen) olen (by rw [input_v]; exact h)
+    rw [input_v] at this
+    exact ⟨this.1, fun hs => this.2 (by omega)⟩
+  | flush olen =>
+    simp only [stepOp]
+    rw [output_v]
+    have := QuiescentV_process cfg (flush r.st) olen (by rw [flush_v]; exact h)
+    rw [flush_v] at this
+    exact ⟨this.1, fun hs => this.2 (by omega)⟩
+
+theorem QuiescentV_run (cfg : Cfg ρ) (ops : List (Op ρ)) (r : Run ρ) (ho : ∀ o ∈ ops, o.isRatio = false)
+    (h : QuiescentV r.st.v) :
+    QuiescentV (run cfg r ops).st.v ∧
+    ((run cfg r ops).nsw = r.nsw →
+      (run cfg r ops).st.v.step = r.st.v.step ∧ (run cfg r ops).st.v.mult = r.st.v.mult ∧
+      (run cfg r ops).st.v.sn = r.st.v.sn) := by
+  induction ops generalizing r with
+  | nil => exact ⟨h, fun _ => ⟨rfl, rfl, rfl⟩⟩
+  | cons o ops ih =>
+    have h1 := stepOp_counters cfg r o
+    have h2 := run_counters cfg ops (stepOp cfg r o)
+    obtain ⟨q1, s1⟩ := QuiescentV_stepOp cfg r o (ho o (List.mem_cons_self ..)) h
+    obtain ⟨q2, s2⟩ := ih (stepOp cfg r o) (fun o' ho' => ho o' (List.mem_cons_of_mem _ ho')) q1
+    simp only [run, List.foldl_cons] at h2 q2 s2 ⊢
+    refine ⟨q2, fun hs => ?_⟩
+    obtain ⟨e1, e2, e3⟩ := s2 (by omega)
+    obtain ⟨f1, f2, f3⟩ := s1 (by omega)
+    exact ⟨e1.trans f1, e2.trans f2, e3.trans f3⟩
+
+/-! ### The sign of `step_step` never changes without a new request (stage switches included) -/
+
+theorem chunkStart_ss (cfg : Cfg ρ) (s : St ρ) (rem : Nat) :
+    (chunkStart cfg s rem).1.cur.ss = s.cur.ss ∨ (chunkStart cfg s rem).1.cur.ss = 0 := by
+  unfold chunkStart
+  dsimp only
+  split
+  · left; rfl
+  · split
+    · right; rfl
+    · left; rfl
+
+theorem chunk_ss_sign (cfg : Cfg ρ) (occ0 : Int) (olen0 : Nat) (l : LoopSt ρ) :
+    (0 ≤ l.st.cur.ss → 0 ≤ (chunk cfg occ0 olen0 l).1.st.cur.ss) ∧
+    (l.st.cur.ss ≤ 0 → (chunk cfg occ0 olen0 l).1.st.cur.ss ≤ 0) := by
+  have hc := chunk_spec cfg occ0 olen0 l
+  dsimp only at hc
+  obtain ⟨_, _, _, _, _, c6, _⟩ := hc
+  rw [c6]
+  unfold chunkBase
+  dsimp only
+  have ha := chunkStart_ss cfg l.st (olen0 - l.od0)
+  split
+  · obtain ⟨_, _, _, _, _, _, _, _, _, _, _, _, _, s14⟩ :=
+      switchStage_spec (chunkStart cfg l.st (olen0 - l.od0)).1 (stageDif (chunkStart cfg l.st (olen0 - l.od0)).1) occ0
+    rw [s14]
+    rcases ha with ha | ha <;> rw [ha]
+    · exact ⟨fun h => lshift_nonneg _ _ h, fun h => lshift_nonpos _ _ h⟩
+    · rw [lshift_zero]; exact ⟨fun _ => Int.le_refl _, fun _ => Int.le_refl _⟩
+  · rcases ha with ha | ha <;> rw [ha]
+    · exact ⟨id, id⟩
+    · exact ⟨fun _ => Int.le_refl _, fun _ => Int.le_refl _⟩
+
+theorem applyDefault_ss (cfg : Cfg ρ) (s : St ρ) :
+    (applyDefault cfg s).cur.ss = s.cur.ss ∨ (applyDefault cfg s).cur.ss = 0 := by
+  unfold applyDefault
+  split
+  · obtain ⟨_, _, _, _, h5, h6⟩ := setIoRatio_zero_spec cfg s ‹_›
+    cases hf : cfg.fixF13 with
+    | false => left; exact (h5 hf).2.2
+    | true => right; exact (h6 hf).2.2.1
+  · left; rfl
+
+theorem process_ss_sign (cfg : Cfg ρ) (s : St ρ) (olen0 : Nat) :
+    (0 ≤ s.cur.ss → 0 ≤ (process cfg s olen0).st.cur.ss) ∧ (s.cur.ss ≤ 0 → (process cfg s olen0).st.cur.ss ≤ 0) := by
+  have := process_induct cfg s olen0
+    (fun v _ _ _ => (0 ≤ s.cur.ss → 0 ≤ v.ss) ∧ (s.cur.ss ≤ 0 → v.ss ≤ 0))
+    (by
+      simp only [St.v]
+      rcases applyDefault_ss cfg s with h | h <;> rw [h]
+      · exact ⟨id, id⟩
+      · exact ⟨fun _ => Int.le_refl _, fun _ => Int.le_refl _⟩)
+    (by
+      intro occ0 l hl _
+      have := chunk_ss_sign cfg occ0 olen0 l
+      simp only [St.v] at hl ⊢
+      exact ⟨fun h => this.1 (hl.1 h), fun h => this.2 (hl.2 h)⟩)
+  exact this
+
+theorem stepOp_ss_sign (cfg : Cfg ρ) (r : Run ρ) (o : Op ρ) (ho : o.isRatio = false) :
+    (0 ≤ r.st.cur.ss → 0 ≤ (stepOp cfg r o).st.cur.ss) ∧ (r.st.cur.ss ≤ 0 → (stepOp cfg r o).st.cur.ss ≤ 0) := by
+  cases o with
+  | ratio x sl => simp [Op.isRatio] at ho
+  | proc ilen olen => exact process_ss_sign cfg (input r.st ilen) olen
+  | flush olen =>
+    have h := process_ss_sign cfg (flush r.st) olen
+    have e : (flush r.st).cur.ss = r.st.cur.ss := congrArg V.ss (flush_v r.st)
+    rw [e] at h
+    exact h
+
+theorem run_ss_sign (cfg : Cfg ρ) (ops : List (Op ρ)) (r : Run ρ) (ho : ∀ o ∈ ops, o.isRatio = false) :
+    (0 ≤ r.st.cur.ss → 0 ≤ (run cfg r ops).st.cur.ss) ∧ (r.st.cur.ss ≤ 0 → (run cfg r ops).st.cur.ss ≤ 0) := by
+  induction ops generalizing r with
+  | nil => exact ⟨id, id⟩
+  | cons o ops ih =>
+    have h1 := stepOp_ss_sign cfg r o (ho o (List.mem_cons_self ..))
+    have h2 := ih (stepOp cfg r o) (fun o' ho' => ho o' (List.mem_cons_of_mem _ ho'))
+    simp only [run, List.foldl_cons] at h2 ⊢
+    exact ⟨fun h => h2.1 (h1.1 h), fun h => h2.2 (h1.2 h)⟩
 
 end Soxr.Vr
